@@ -57,6 +57,9 @@ def cases(tier, seed):
                             if omega and nroots > 1:
                                 continue
                             yield {"k": "chain", "fam": fam, "n": n, "sector": sec, "method": method, "algo": algo, "nroots": nroots, "omega": omega}
+    for fam, n, sec in (("elec", 4, [2]), ("eph", 4, [1]), ("spin", 4, [0])):
+        for method in ("1site", "2site"):
+            yield {"k": "omega-scan", "fam": fam, "n": n, "sector": sec, "method": method}
     for method in ("1site", "2site"):
         yield {"k": "chain", "fam": "big", "n": 10, "sector": [0], "method": method, "algo": "davidson", "nroots": 1, "omega": False}
     # local problems of dimension >= 1000 are the only ones that reach the iterative eigensolver: real and complex Hermitian, one and several roots
@@ -293,7 +296,61 @@ def run_tree(desc, seed):
             "sample": {"desc": desc, "E0": float(wex[0])}}
 
 
+def run_omega_scan(desc, seed):
+    """history on ONE model object and ONE operator object: a ground-state search, then interior eigenstates targeted with a sequence of
+    different shifts omega (and the first shift once more at the end); every search is compared with min spec((H - omega)^2)"""
+    from renormalizer.mps import Mps, Mpo
+    from renormalizer.mps.gs import optimize_mps
+    from renormalizer.utils import OptimizeConfig
+    fam, n, sec = desc["fam"], desc["n"], desc["sector"]
+    ch = Chain(fam, n, seed)
+    model = ch.new_model()
+    H = Mpo(model, ch.h_terms)
+    Hd = np.asarray(H.todense())
+    mask = sector_projector(ch.sigmaqn(), sec)
+    Hs = ((Hd + Hd.conj().T) / 2)[np.ix_(mask, mask)]
+    w = np.linalg.eigvalsh(Hs)
+    hscale = max(1.0, np.abs(w).max())
+    viol = {}
+    nrun = 0
+    probe = ch.random_mps(sec, 2, "probe")
+    mexact = int(max(probe.bond_dims_exact))
+    ks = [k for k in (1, len(w) // 2, len(w) - 2) if 0 < k < len(w) - 1]
+    targets = [None] + [w[k] + 0.3 * (w[k + 1] - w[k]) for k in ks] + ([w[ks[0]] + 0.3 * (w[ks[0] + 1] - w[ks[0]])] if ks else [])
+    for i, omega in enumerate(targets):
+        env.reseed(seed, ("c08scan", fam, n, tuple(sec), i))
+        try:
+            mps = Mps.random(model, np.array(sec), max(mexact, 2), percent=1.0)
+        except FloatingPointError:
+            continue
+        mps.optimize_config = OptimizeConfig(procedure=[[mexact, 0.4], [mexact, 0.2], [mexact, 0], [mexact, 0], [mexact, 0]])
+        mps.optimize_config.method = desc["method"]
+        try:
+            energies, res = optimize_mps(mps, H, omega=omega)
+            nrun += 1
+        except Exception as e:
+            add(viol, f"C08:omega-scan:exception:{type(e).__name__}", f"[{fam} n={n} sector={sec}] search {i} (omega={omega}): {e!r}")
+            continue
+        E = np.array(energies, dtype=float).ravel()
+        if omega is None:
+            if abs(E.min() - w[0]) > 1e-6 * hscale:
+                add(viol, "C08:omega-scan:ground-state", f"[{fam} n={n} sector={sec}]: {E.min()} vs {w[0]}")
+            continue
+        w2 = np.sort((w - omega) ** 2)
+        if abs(E.min() - w2[0]) > 1e-6 * hscale ** 2:
+            add(viol, f"C08:omega-scan:{'first' if i == 1 else 'later'}-target:{desc['method']}",
+                f"[{fam} n={n} sector={sec}] search number {i} on the same model / operator objects, omega = {omega:.6f}: reported {E.min()!r}, min spec((H-omega)^2) = {w2[0]!r}")
+        v = dense_of(res) if not isinstance(res, list) else dense_of(res[0])
+        eh = np.real(np.vdot(v, Hd @ v)) / np.vdot(v, v).real
+        closest = w[np.argmin(np.abs(w - omega))]
+        if abs(eh - closest) > 1e-4 * hscale:
+            add(viol, f"C08:omega-scan:returned-state:{'first' if i == 1 else 'later'}-target", f"[{fam} n={n} sector={sec}] search {i}, omega = {omega:.6f}: <H> of the returned state {eh!r}, eigenvalue closest to omega {closest!r}")
+    return {"nontrivial": nrun >= 3, "counters": {"optimiser_runs": nrun}, "outcome": f"omega-scan:{'viol' if viol else 'ok'}", "viol": list(viol.values()), "sample": {"desc": desc, "targets": len(targets)}}
+
+
 def run_case(desc, seed):
+    if desc["k"] == "omega-scan":
+        return run_omega_scan(desc, seed)
     if desc["k"] == "chain":
         return run_chain(desc, seed)
     return run_tree(desc, seed)
